@@ -385,6 +385,7 @@ def run(R, only_cases=None):
     if only_cases is None:
         total_on_dumps(R, rnd)
         print_on_dumps(R, rnd)
+        file_history(R)
     R.notes["rule"] = ("(a) generated schemas (all loaders, valid + malformed, shared/cyclic ids; a third with line breaks, controls, invisible spaces, lone "
                        "surrogates in keys / attribute names / type names) x trusted spec x show mode: default-sink text (UTF-8 stream over bytes) and raw rows vs model; "
                        "(b) real dumps of generated values x 3 trust settings x 3 show modes must ALL complete (every dumped archive, nine calls); "
@@ -496,6 +497,35 @@ def printer_vs_model(R, items):
             raise RuntimeError(f"{f.name}: expected one result list: {outs[f][-300:]}")
         bad += [(s0 + k, model) for k, model in res[0]]
     return bad
+
+
+# successive versions of one model FILE (safe, untrusted user object, safe again, another untrusted class, a bigger safe one):
+# what visualize(path) shows must follow the file, not an earlier reading of it
+FILE_HISTORY = [["list", [["int", 1], ["ndarray", "<f8", [3], "C", 1, False]]],
+                ["list", [["int", 1], ["userobj", "Plain", [["a", ["int", 2]]]]]],
+                ["list", [["int", 1], ["ndarray", "<f8", [3], "C", 1, False]]],
+                ["dict", [[["str", "m"], ["userobj", "WithState", [["payload", ["int", 3]]]]], [["str", "w"], ["ndarray", "<i8", [2], "C", 2, False]]]],
+                ["list", [["int", 1], ["userobj", "Plain", [["a", ["int", 2]]]]]],
+                ["tuple", [["str", "only"], ["str", "safe"], ["dict", [[["str", "k"], ["list", [["int", 0]]]]]]]]]
+
+
+def file_history(R):
+    p = C.run_impl("impl_io.py", input_obj={"mode": "visfile", "cases": FILE_HISTORY}, timeout=600)
+    if p.returncode != 0:
+        R.obligation_broken("C13 file history (runner)", p.stderr.decode(errors="replace")[-800:])
+        return
+    for k, rec in enumerate(json.loads(p.stdout)):
+        R.count("file-history:" + ("untrusted" if rec["gut"] else "safe"))
+        R.case(["file-history", k, rec["gut"], rec["views"]], nontrivial=True)
+        for view, v in rec["views"].items():
+            want_safe = (not rec["gut"]) or view.endswith("/reported")
+            if "raises" in v:
+                R.violation({"kind": "visualize-raises-on-dump", "site": "file-history"}, f"visualize(path) of version {k} of the file raised {v['raises']}",
+                            {"file_history": FILE_HISTORY[:k + 1], "view": view})
+            elif v["root_safe"] != want_safe or (view.endswith("/none") and set(v["unsafe_vals"]) != set(rec["gut"])):
+                R.violation({"kind": "stale-or-wrong-file-view", "site": "file-history"},
+                            f"after version {k} was written to the same path, visualize({view}) shows root_safe={v['root_safe']} and unsafe rows {v['unsafe_vals']} "
+                            f"while get_untrusted_types(file=path) = {rec['gut']}", {"file_history": FILE_HISTORY[:k + 1], "view": view})
 
 
 def print_on_dumps(R, rnd, only=None):
